@@ -246,25 +246,38 @@ def check_optimal(ctx, fb):
     li = fb.need(OPT_P + "leaf_index")
     ps = ret_paths(e.run(li))
     rv = e.value_of(ps[0].store, ps[0].ret) if len(ps) == 1 else None
-    it4, c = closure_arms(fb, OPT_P + "leaf_index::{closure#0}")
-    # the direction bits are folded most-significant first: either the list is reversed in place and folded, or folded through .rev();
-    # the accumulator must be a usize (a narrower one wraps for deep trees) and each step is acc*2 + bit (| is the same on a 0/1 bit)
-    def reversed_bits(t):
-        if isinstance(t, tuple) and t and t[0] == "upd" and isinstance(t[1], str) and t[1].endswith("::reverse"):
-            return True
-        n = 0
-        while isinstance(t, tuple) and t and t[0] == "call" and n < 4:
-            if t[1].endswith("::rev"):
-                return True
-            if re.search(r"::(iter|into_iter|copied|cloned)$", t[1]) and t[2]:
+    # the direction bits (the `.1` of each step: `get_path_index()`, or `self.0.iter().map(|x| x.1)`) are folded most-significant
+    # first: the list is reversed in place and folded, or folded through .rev(); the accumulator must be a usize (a narrower one
+    # wraps for deep trees) and each step is acc*2 + bit (| is the same on a 0/1 bit)
+    def bit_sequence(t):
+        """(reversed an odd number of times, is the direction-bit sequence of this proof)"""
+        rev = 0
+        for _ in range(8):
+            if not (isinstance(t, tuple) and t):
+                break
+            if t[0] == "upd" and isinstance(t[1], str) and t[1].endswith("::reverse"):
+                rev += 1
+                t = t[3][0]
+            elif t[0] == "call" and t[1].endswith("::rev") and t[2]:
+                rev += 1
                 t = t[2][0]
-                n += 1
+            elif t[0] == "call" and re.search(r"::(iter|into_iter|copied|cloned)$", t[1]) and t[2]:
+                t = t[2][0]
+            elif t[0] == "call" and t[1].endswith("Iterator::map") and len(t[2]) == 2 and isinstance(t[2][0], tuple) and t[2][0][0] == "call" and t[2][0][1].endswith("::rev"):
+                # map(rev(S), f) = rev(map(S, f))
+                rev += 1
+                t = ("call", t[1], (t[2][0][2][0], t[2][1]))
             else:
                 break
-        return False
+        if isinstance(t, tuple) and t and t[0] == "call" and t[1].endswith("get_path_index") and t[2] == (P(1),):
+            return rev % 2 == 1, True
+        sm = seq_map(fb, t)
+        return rev % 2 == 1, sm is not None and sm[0] == F(P(1), "0") and sm[1] == F(ELEM, "1")
+    isfold = rv is not None and rv[0] == "call" and rv[1].endswith("::fold") and len(rv[2]) == 3 and isinstance(rv[2][2], tuple) and rv[2][2][0] == "closure"
+    it4, c = closure_arms(fb, rv[2][2][1]) if isfold else (None, None)
     step = (c or {}).get(None)
     acc_ty = it4.locals[2]["ty"] if it4 is not None and len(it4.locals) > 2 else None
-    good = rv is not None and rv[0] == "call" and rv[1].endswith("::fold") and reversed_bits(rv[2][0]) and "get_path_index" in repr(rv[2][0]) and cint(rv[2][1]) == 0 \
+    good = isfold and bit_sequence(rv[2][0]) == (True, True) and cint(rv[2][1]) == 0 \
         and acc_ty == "usize" and step is not None and step[0] == "bin" and step[1] in ("Add", "BitOr") \
         and step[2][:3] == ("bin", "Shl", P(2)) and cint(step[2][3]) == 1 and step[3][0] == "call" and step[3][2] == (P(3),)
     ctx.check(good, "R07-1", "OptimalMerkleProof::leaf_index", "direction bits folded most-significant first into a usize: acc*2 + bit", "leaf_index is %s with step %s (accumulator type %s)" % (sh(rv, 120), sh((c or {}).get(None), 80), acc_ty), loc(li))
